@@ -50,7 +50,12 @@ def _union(parts):
 
 
 def _neg(r):
-    return z3.Intersect(ALLCH, z3.Complement(r))
+    # the complement of a character set never contains the artificial word-boundary marker (MARK stands for \b, it is not
+    # a character of any input): otherwise `[^x]+` could swallow a boundary and invent matches
+    return z3.Intersect(ALLCH, z3.Complement(r), z3.Complement(z3.Re(MARK)))
+
+
+NOMARK = None  # set below: all strings without the artificial \\b marker
 
 
 def _category(c, ascii_only: bool):
@@ -120,7 +125,7 @@ def _seq(seq, flags, top=False):
         elif op == K.NOT_LITERAL:
             out.append(_neg(_lit(av, bool(flags & re.I))))
         elif op == K.ANY:
-            out.append(ALLCH if flags & re.S else _neg(z3.Re("\n")))
+            out.append(_neg(z3.Empty(_RS)) if flags & re.S else _neg(z3.Re("\n")))
         elif op == K.IN:
             out.append(_in(av, flags))
         elif op == K.BRANCH:
@@ -252,3 +257,6 @@ def validate(patterns: list[tuple[str, int]], samples: list[str], mode: str = "m
             if want != got:
                 bad.append(f"{mode} {pat!r} on {s!r}: re={want} z3={got}")
     return bad
+
+
+NOMARK = z3.Star(_neg(z3.Empty(_RS)))
